@@ -48,7 +48,8 @@ def strategy(tier):
     f = gen_factory.factories(PROFILE)
     # store histories are cheap: four of five cases (queues of several waiters, withdrawals in the middle of a queue)
     h = gen_store.case(S_CLASSES, S_WEIGHTS, max_ops=40, macros=4, extra=7)
-    return st.one_of(f, h, h, h, h)
+    from .c05 import _prs_case
+    return st.one_of(f, h, h, h, _prs_case())
 
 
 def shrink_candidates(case):
@@ -59,7 +60,52 @@ def shrink_candidates(case):
         yield from gen_factory.shrink_candidates(case)
 
 
+def prs_trace(case):
+    """PriorityReqStore (SimPy-style put/get requests with priorities, C05's case format): the order in which requests are
+    served, after every operation"""
+    import simpy
+    from ..common import silence
+    from factorysimpy.base.priority_req_store import PriorityReqStore
+    env = simpy.Environment()
+    store = PriorityReqStore(env, capacity=case["subject"]["capacity"])
+    reqs, log, n = [], [], 0
+
+    def poll(opi):
+        for r in reqs:
+            if r[2] == "pending" and r[1].triggered:
+                r[2] = "served"
+                log.append((opi, env.now, r[0]))
+    aborted = None
+    for opi, op in enumerate(case["ops"]):
+        try:
+            if op[0] == "P":
+                reqs.append(["p%d" % n, store.put("x%d" % n, priority=op[1]), "pending"])
+                n += 1
+            elif op[0] == "G":
+                reqs.append(["g%d" % n, store.get(priority=op[1]), "pending"])
+                n += 1
+            elif op[0] == "C":
+                pend = [r for r in reqs if r[2] == "pending"]
+                if pend:
+                    r = pend[op[1] % len(pend)]
+                    r[1].cancel()
+                    r[2] = "cancelled"
+            elif op[0] == "adv":
+                target = env.now + [0.5, 1, 0.3][op[1] % 3]
+                while env.peek() < target:
+                    env.step()
+                    poll(opi)
+                env.run(until=target)
+        except Exception as e:   # noqa
+            aborted = type(e).__name__
+            break
+        poll(opi)
+    return ["%d %s %s" % e for e in log], aborted, env.now
+
+
 def store_trace(case):
+    if case["subject"]["cls"] == "PriorityReqStore":
+        return prs_trace(case)
     """canonical trace of one store history: the harness log (operation, outcome, contents, live tokens after every operation),
     memory addresses removed"""
     import re
@@ -164,7 +210,7 @@ def run_case(case):
                             "two executions of one store history in one interpreter differ at log entry %d: %s vs %s" % (
                                 i, a[0][i] if i < len(a[0]) else a[1], other[0][i] if i < len(other[0]) else other[1]))
                 break
-        res.nontrivial = sum(1 for o in case["ops"] if o[0] in ("cp", "cg")) >= 1 and len(case["ops"]) >= 8
+        res.nontrivial = sum(1 for o in case["ops"] if o[0] in ("cp", "cg", "C")) >= 1 and len(case["ops"]) >= 8
         res.info["digest"] = hashlib.sha1(json.dumps(a[:2], sort_keys=True).encode()).hexdigest()
         res.classes = ["history:" + case["subject"]["cls"]]
         return res
